@@ -232,4 +232,9 @@ BondsFit == Built /\ Construction = "index" =>
 SlotFree == phase = "made" => \A s \in 1..NS : \A a \in F[s].as : ~(a.l = SlotL(s - 1) /\ a.r = SlotR(s - 1))
 \* THE requirement
 PathBag == Built => PathBagOK(Edges(F), NS, Root, Sink, E, Kind, gen)
+\* the fast form of the requirement is the stated one (checked in the small configurations only)
+FormsAgree == Built => LET P == Paths(Edges(F), NS, Root, Sink) IN
+                         PathBagOKOn(P, NS, E, Kind, gen) <=> PathBagOKDef(P, NS, E, Kind, gen)
+\* binding: print the factors of every pattern (ACTION_CONSTRAINT; compared with the real make_H's factors)
+LogMake == (phase = "pattern" /\ phase' = "made") => PrintT(<<"F", E, F'>>)
 ====
